@@ -41,7 +41,7 @@ pub fn meta() -> CheckMeta {
     CheckMeta {
         id: "C11",
         level: "exploration",
-        rule: "cases: operand pairs from G-poly (degree 0..128, |c| in 1e-3..1e3, dense / sparse / palindromic / x^n-c / from roots / integer, leading and trailing zeros, leading terms straddling the zero tolerance), real and complex, every case run through all 6 forms of + - * (a?b, &a?b, a?&b, &a?&b, a?=b, a?=&b), both neg forms, all 3 forms of scalar + - * /, b*a and pointwise evaluation; dft cases: size from the coefficient count up to 1024. A pair case counts as non-trivial once when its product went through the FFT path (both operands have >= 3 stored coefficients); a pair on the scalar/linear path counts once per operator form executed on it; every dft case is non-trivial (hash of operands / polynomial+size)".into(),
+        rule: "cases: operand pairs from G-poly (degree 0..128, |c| in 1e-3..1e3, dense / sparse / palindromic / x^n-c / from roots / integer, leading and trailing zeros, leading terms straddling the zero tolerance), real and complex, every case run through all 6 forms of + - * (a?b, &a?b, a?&b, &a?&b, a?=b, a?=&b), both neg forms, all 3 forms of scalar + - * /, b*a and pointwise evaluation; dft cases: size from the coefficient count up to 1024. A pair case counts as non-trivial once when its product went through the FFT path (both operands have >= 3 stored coefficients); a pair on the scalar/linear path counts once per operator form executed on it; every dft case is non-trivial (hash of operands / polynomial+size). Stage assign-chains: an accumulator (mostly constant or linear at the start, fine tolerance) updated in place by 2-4 assigning operations whose right operands carry their own tolerances up to 100; the exact running result is required after every step".into(),
         assumptions: vec![
             "reference coefficients come from compensated (twice working precision) convolution in the harness; dft reference values from compensated direct summation with exactly reduced twiddle factors".into(),
             "the zero tolerance is allowed only on coefficients the result has dropped (index above order() of the result): kept coefficients must meet the pure rounding bound".into(),
@@ -754,6 +754,105 @@ fn run_f32_pair(rep: &mut Report, rng: &mut Rng) {
     rep.nontrivial(h.0);
 }
 
+// ------------------------------------------------------------------ chains of assigning operators
+
+/// An accumulator with a fine zero tolerance is updated in place by a chain of 2-4 assigning
+/// operations (`*=`, `+=`, `-=`, owned and borrowed right operands) whose right operands carry their
+/// own, often much coarser, zero tolerances. After every step the accumulator must hold the exact
+/// running result (coefficients O(1), far above the accumulator's tolerance, so nothing may be
+/// purged): the polynomial's OWN tolerance governs its products, not one picked up from an operand
+/// earlier in the history.
+fn run_assign_chain<N: Sc>(rep: &mut Report, rng: &mut Rng) {
+    let gen = |rng: &mut Rng, len: usize| -> Vec<C64> {
+        let mut v: Vec<C64> = (0..len).map(|_| if N::COMPLEX { C64::new(rng.r(-2.0, 2.0), rng.r(-2.0, 2.0)) } else { C64::new(rng.r(-2.0, 2.0), 0.0) }).collect();
+        let l = v.last_mut().unwrap();
+        if l.norm() < 0.5 {
+            *l = C64::new(1.0, if N::COMPLEX { -0.5 } else { 0.0 });
+        }
+        v
+    };
+    // the accumulator starts as a constant or a linear polynomial in most cases (the scalar and
+    // linear-factor paths take their result from a different place than the FFT path)
+    let l0 = *rng.pick(&[1usize, 1, 2, 2, 3, 5]);
+    let mut exact = gen(rng, l0);
+    let tol_acc = *rng.pick(&[None, Some(1e-12), Some(1e-8)]);
+    let mut acc: Polynomial<N> = build::<N>(&exact, tol_acc, rng.bool());
+    let steps = 2 + rng.below(3);
+    let mut log: Vec<J> = vec![J::obj().set("start", pj(N::COMPLEX, &exact)).set("tolerance", tolj(tol_acc))];
+    rep.eval();
+    rep.count(&format!("{}/assign_chains", N::NAME), 1);
+    let mut coarse_seen = false;
+    for step in 0..steps {
+        let lf = *rng.pick(&[1usize, 2, 3, 4, 6, 9]);
+        let f = gen(rng, lf);
+        let tol_f = *rng.pick(&[None, Some(1e-6), Some(0.1), Some(10.0), Some(100.0)]);
+        let pf: Polynomial<N> = build::<N>(&f, tol_f, rng.bool());
+        let op = rng.below(6);
+        let opname = ["*= f", "*= &f", "+= f", "+= &f", "-= f", "-= &f"][op];
+        let before_mul_fft = exact.len() >= 3 && lf >= 3;
+        let new_exact: Vec<C64> = match op {
+            0 | 1 => conv_exact(&exact, &f),
+            2 | 3 => (0..exact.len().max(lf)).map(|i| exact.get(i).copied().unwrap_or(C64::new(0.0, 0.0)) + f.get(i).copied().unwrap_or(C64::new(0.0, 0.0))).collect(),
+            _ => (0..exact.len().max(lf)).map(|i| exact.get(i).copied().unwrap_or(C64::new(0.0, 0.0)) - f.get(i).copied().unwrap_or(C64::new(0.0, 0.0))).collect(),
+        };
+        log.push(J::obj().set("op", opname).set("f", pj(N::COMPLEX, &f)).set("tolerance_f", tolj(tol_f)));
+        let r = guard(move || {
+            let mut acc = acc;
+            match op {
+                0 => acc *= pf,
+                1 => acc *= &pf,
+                2 => acc += pf,
+                3 => acc += &pf,
+                4 => acc -= pf,
+                _ => acc -= &pf,
+            }
+            acc
+        });
+        let case = || J::obj().set("field", N::NAME).set("history", J::Arr(log.clone())).set("failing_step", step as u64);
+        acc = match r {
+            Guarded::Ok(a) => a,
+            Guarded::Panic(m, l) => {
+                rep.violation("assign-chain/panic", case(), format!("step {} ({}) panicked: '{}' at {}", step, opname, m, l));
+                return;
+            }
+            Guarded::Budget => return,
+        };
+        // sums and differences may cancel the leading coefficient: keep the model simple by ending
+        // the chain when the exact leading coefficient is not clearly non-zero
+        let lead = new_exact.last().unwrap().norm();
+        let scale = norm2(&exact).max(1.0) * norm2(&f).max(1.0);
+        let unit = EPS * (nextpow2(2 * exact.len().max(lf)) as f64).log2().max(1.0) * scale;
+        if lead < 0.05 {
+            rep.count("assign_chains_ended_on_cancelling_lead", 1);
+            return;
+        }
+        if coarse_seen && before_mul_fft && op <= 1 {
+            rep.count(&format!("{}/assign_chain_fft_products_after_a_coarse_operand", N::NAME), 1);
+        }
+        if acc.order() != new_exact.len() - 1 {
+            rep.violation(
+                &format!("assign-chain/degree/{}", &opname[..2]),
+                case().set("order", acc.order()).set("expected_order", new_exact.len() - 1),
+                format!("after step {} ({}) the accumulator has order {}, exact running result has degree {} with leading coefficient {:e} (accumulator tolerance {:?})", step, opname, acc.order(), new_exact.len() - 1, lead, tol_acc),
+            );
+            return;
+        }
+        let cmp = cmp_coeffs(&acc, &new_exact, &|_| unit, K_PRODUCT, 0.0);
+        rep.max("assign_chain_err_over_unit", cmp.worst);
+        if let Some(b) = cmp.bad {
+            rep.violation(&format!("assign-chain/coefficients/{}", &opname[..2]), case(), format!("after step {} ({}): {}", step, opname, b));
+            return;
+        }
+        if matches!(tol_f, Some(t) if t >= 0.1) {
+            coarse_seen = true;
+        }
+        exact = new_exact;
+    }
+    let mut h = CaseHash::new("c11-chain").u(N::COMPLEX as u64);
+    h = hash_poly(h, &exact);
+    rep.nontrivial(h.0);
+}
+
 // ------------------------------------------------------------------ stages
 
 pub fn stages(ctx: &Ctx) -> Vec<Stage> {
@@ -839,6 +938,14 @@ pub fn stages(ctx: &Ctx) -> Vec<Stage> {
         let case = DftCase { complex, c, size, tol, idft_tol, shape };
         run_dft_dyn(rep, &case, &mut rng);
     }));
+    st.push(Stage::new("assign-chains", tier.pick(8_000, 120_000), move |i, rep| {
+        let mut rng = Rng::for_case(seed, "c11-assign-chains", i);
+        if i % 2 == 0 {
+            run_assign_chain::<f64>(rep, &mut rng);
+        } else {
+            run_assign_chain::<C64>(rep, &mut rng);
+        }
+    }));
     st.push(Stage::new("f32-pairs", tier.pick(4_000, 60_000), move |i, rep| {
         let mut rng = Rng::for_case(seed, "c11-f32", i);
         run_f32_pair(rep, &mut rng);
@@ -850,6 +957,8 @@ pub fn thresholds(ctx: &Ctx, rep: &Report) -> Vec<Threshold> {
     let mut t = vec![];
     let q = |a: f64, b: f64| ctx.tier.pick(a, b);
     for fld in ["f64", "c64"] {
+        t.push(Threshold { what: format!("chains of assigning operators ({})", fld), required: q(2_000.0, 30_000.0), observed: rep.counter(&format!("{}/assign_chains", fld)) as f64 });
+        t.push(Threshold { what: format!("in-place FFT products after an operand with a coarse tolerance was absorbed ({})", fld), required: q(400.0, 6_000.0), observed: rep.counter(&format!("{}/assign_chain_fft_products_after_a_coarse_operand", fld)) as f64 });
         t.push(Threshold { what: format!("operand pairs multiplied through the FFT path ({})", fld), required: q(1_500.0, 60_000.0), observed: rep.counter(&format!("mul/fft/{}", fld)) as f64 });
         t.push(Threshold { what: format!("operand pairs multiplied through the linear-factor path ({})", fld), required: q(100.0, 3_000.0), observed: rep.counter(&format!("mul/linear/{}", fld)) as f64 });
         t.push(Threshold { what: format!("operand pairs multiplied through the scalar path ({})", fld), required: q(100.0, 3_000.0), observed: rep.counter(&format!("mul/scalar/{}", fld)) as f64 });
